@@ -161,6 +161,8 @@ package types
 //@        && w.CPUMap == old(w.CPUMap)
 //@        && (forall k string :: w.CPUMap[k] == old(w.CPUMap[k]) + w1.CPUMap[k])
 //@        && (forall k string :: w.NUMAMemory[k] == old(w.NUMAMemory[k]) + w1.NUMAMemory[k])
+//@   # the NUMA memory map of w is either the one it had or (when that was empty) the one of w1
+//@   ensures[C08.wl-add-alias,C15] w.NUMAMemory == old(w.NUMAMemory) || (old(card(w.NUMAMemory)) == 0 && w.NUMAMemory == w1.NUMAMemory)
 
 //@ func (*WorkloadResource) Sub
 //@   requires w != nil && w1 != nil && w != w1 && smallWl(w) && smallWl(w1)
@@ -200,3 +202,21 @@ package types
 //@   ensures[C06.validate,C07,C04,C05] err == nil ==> w.MemRequest >= 0 && w.MemLimit >= 0 && w.CPURequest >= 0.0 && w.CPULimit >= 0.0
 //@                              && (w.CPUBind ==> w.CPURequest > 0.0) && w.CPUBind == old(w.CPUBind)
 //@                              && (w.MemLimit > 0 ==> w.MemLimit >= w.MemRequest) && (w.CPULimit > 0.0 && w.CPURequest > 0.0 ==> w.CPULimit >= w.CPURequest)
+
+//@ # decoding the raw maps handed over by eru-core (mapstructure): assumed to fill the record with arbitrary values
+//@ func (*WorkloadResource) Parse
+//@   trusted
+//@   requires w != nil
+//@   modifies w
+//@   ensures (w.CPUMap == nil || allocated(w.CPUMap)) && (w.NUMAMemory == nil || allocated(w.NUMAMemory))
+//@   # C15: the decoded record is a function of the raw record (wlCPU/wlNUMA/wlMem/wlCPUReq name what the decoder yields),
+//@   # and the decoder builds new maps
+//@   ensures[C15] result == nil ==> (forall k string :: w.CPUMap[k] == wlCPU(rawParams, k)) && (forall k string :: w.NUMAMemory[k] == wlNUMA(rawParams, k))
+//@                && w.MemoryRequest == wlMem(rawParams) && w.CPURequest == wlCPUReq(rawParams)
+//@                && (w.CPUMap == nil || fresh(w.CPUMap)) && (w.NUMAMemory == nil || fresh(w.NUMAMemory)) && w.CPUMap != w.NUMAMemory
+
+//@ # what WorkloadResource.Parse decodes from one raw workload record (uninterpreted functions of the record)
+//@ ufun wlCPU(raw ref, k string) int
+//@ ufun wlNUMA(raw ref, k string) int64
+//@ ufun wlMem(raw ref) int64
+//@ ufun wlCPUReq(raw ref) float64
